@@ -111,6 +111,17 @@ def handle (j : J) : Except String J := do
     | .ok r => pure (.obj [("steps", .arr (r.steps.map ofStepR)), ("ready", .str (ofReady r.ready)),
                            ("watched", ofRes r.watched), ("pp", ofStrs r.parentProps)])
     | .error e => pure (.obj [("raise", .str e)])
+  | "workflowSeq" =>
+    -- {"op":"workflowSeq","env":[…],"seq":[[step…],…]}: a run of preparations in one process
+    let env ← toEnv (← j.getArr "env")
+    let specs ← (← j.getArr "seq").mapM fun w => match w with
+      | .arr xs => xs.mapM toStep
+      | _ => throw "bad sequence entry"
+    let rs := (prepareSeq env specs).map fun x => match x with
+      | .ok r => J.obj [("steps", .arr (r.steps.map ofStepR)), ("ready", .str (ofReady r.ready)),
+                        ("watched", ofRes r.watched), ("pp", ofStrs r.parentProps)]
+      | .error e => J.obj [("raise", .str e)]
+    pure (.obj [("results", .arr rs)])
   | "rf" =>
     let os ← (← j.getArr "overlays").mapM toOverlay
     match rfWatched (← j.getBool "bodyOk") os with
